@@ -115,7 +115,7 @@ let dump (p : pg_doc) : string =
      | None -> Buffer.add_string b "null"
      | Some (PcObj v) -> unparse b v
      | Some (PcStream (d, data, _)) -> Buffer.add_char b 'S'; unparse b (PvDict d); Buffer.add_char b '#';
-       if pg_stream_readable s (n_of_int i) then Buffer.add_string b (hexbytes data) else Buffer.add_char b '!');
+       (match pg_stream_data p (n_of_int i) with Some x -> Buffer.add_string b (hexbytes x) | None -> Buffer.add_char b '!'));
     Buffer.add_char b '\n'
   done;
   Buffer.contents b
